@@ -925,7 +925,7 @@ func main() {
 	r := ev.Start("C18")
 	r.Rule("(a) every sequence of <=L remote frames over a 16-frame alphabet x direction x AllowSelfConns, run on the real (rewritten) peer under the cooperative scheduler's default schedule, against a reference handshake state machine; (b) lifecycle scenarios (queuers x disconnect kind x inbound traffic x trickle tick) explored over ALL schedules with at most k deviations from the canonical schedule (deviation = any non-canonical choice at a scheduling point: a preemption, a non-canonical wake-up order, or a non-first ready select case); a case is distinct by its frame sequence / its schedule's observable outcome")
 	r.Assume("timers fire only when the harness says so (idle/ping/stall/negotiation timeouts never fire inside the explored horizon)")
-	r.Assume("atomics are not scheduling points: interleavings are explored at lock, channel, select, conn-read/write and spawn granularity")
+	r.Assume("scheduling points: lock, channel, select, conn read/write, spawn and 32-bit atomic operations (connected/disconnect flags); 64-bit statistics atomics are not points")
 	r.Assume("the data-race clause is covered by a separate free-running -race pass of the same scenarios (race_pass in coverage), because a cooperative scheduler's hand-offs hide races")
 
 	if r.ReplayPath != "" {
